@@ -342,6 +342,30 @@ fn gen_c12(tier: &str, rng: &mut Sm) -> Gen {
         g.inputs.push(case(rng, n, tl![A(8), a(k), A(1), A(1), A(4)]));
         g.inputs.push(case(rng, n, tl![A(8), a(k), A(1), A(0), A(1)]));
     }
+    if tier == "thorough" {
+        // further dyadic rates, lengths and alphabets
+        for len in 1..=6usize {
+            let bits: Vec<i64> = (0..len).map(|_| rng.range(0, 1)).collect();
+            for (rn, rd) in [(1i64, 32i64), (3, 8), (5, 8), (3, 4), (15, 16), (0, 1), (1, 1)] {
+                g.inputs.push(case(rng, n, tl![A((len % 2) as i128), a(rn), a(rd), tv(&bits)]));
+            }
+        }
+        for len in 0..=3usize {
+            let parent: Vec<i64> = (0..len as i64).collect();
+            for ((an, ad), (dn, dd)) in [((3i64, 4i64), (1i64, 8i64)), ((1, 8), (3, 4)), ((1, 2), (1, 2)), ((1, 4), (3, 4)), ((1, 1), (1, 2)), ((1, 16), (1, 16))] {
+                for ek in 0..=2i64 {
+                    let (en, ed) = if ek == 2 { (an, ad) } else { (1, 4) };
+                    g.inputs.push(case(rng, n, tl![A(4), a(an), a(ad), a(dn), a(dd), a(ek), a(en), a(ed), tv(&parent), tv(&[40, 41])]));
+                }
+            }
+        }
+        for k in [4i64, 7] {
+            g.inputs.push(case(rng, n, tl![A(8), a(k), A(0), A(0), A(1)]));
+            g.inputs.push(case(rng, n, tl![A(8), a(k), A(1), A(1), A(8)]));
+            g.inputs.push(case(rng, n, tl![A(8), a(k), A(1), A(1), A(2)]));
+            g.inputs.push(case(rng, n, tl![A(8), a(k), A(1), A(1), A(1)]));
+        }
+    }
     g.meta("generator", "full child distributions: bit-flip rates {1/16, 1/4, 1/2, 7/8} and 1/len for len 1..8; UMAD (a,d) in {(1/8,1/8), (1/4,1/5) [size-neutral], (1/2,1/4), (1,0), (0,1), (1/2,1/3) [size-neutral]} on 0..3 tagged genes with a 2-gene alphabet; uniform crossover len 1..6; random bitstrings p in {0, 1/8, 1/2, 7/8, 1}; gene generators for 1,2,3,5 instructions with the default and explicit close probabilities");
     g
 }
